@@ -161,6 +161,15 @@ Definition not_rows : list row :=
   [ mk_row "not" [] "none" GNone FNone true DNode br false NT (U Not (L XValBool 0));
     mk_row "not" [] "none" GNone FNone false DNode SBool false NT (U Not (L XValBool 0)) ].
 
+(** && and || (run.go land / lor): in branch context (the node has a false successor: condition of
+    if / for / case, or left operand of an enclosing && / ||) the closure stores the result in the
+    node's frame slot on BOTH paths before branching; the enclosing operator reads that slot, which
+    is zeroed only when the frame is created. *)
+Definition logic_rows (fn : string) (o : bop) : list row :=
+  [ mk_row fn [] "none" GNone FNone true DNode br false NT (B o (L XValBool 0) (L XValBool 1));
+    mk_row fn [] "none" GNone FIface false DNode SConv false NT (B o (L XValBool 0) (L XValBool 1));
+    mk_row fn [] "none" GNone FVar false DNode SBool false NT (B o (L XValBool 0) (L XValBool 1)) ].
+
 Definition pos_rows : list row :=
   [ mk_row "pos" [] "none" GNone FNone false DNode SSet false NT (L XVal 0) ].
 
@@ -213,7 +222,9 @@ Definition model_fns : list (string * list row) := [
   ("neg", un_rows "neg" "ntyp" Neg num4);
   ("pos", pos_rows);
   ("bitNot", un_rows "bitNot" "typ:concrete" BitNot int2);
-  ("not", not_rows)
+  ("not", not_rows);
+  ("land", logic_rows "land" LAnd);
+  ("lor", logic_rows "lor" LOr)
 ].
 
 Definition model_table : list row := flat_map snd model_fns.
